@@ -1,4 +1,5 @@
 import Dbg.Gen.Consts
+import Dbg.Model.Seq
 /-! Model of `Scanner::scan` (msp.rs 194-276) over abstract position scores. -/
 namespace Msp
 
@@ -45,11 +46,11 @@ structure Iv where
   start : Nat
   len : Nat
   mpos : Nat
-  mini : List Nat
+  mini : Compress.Seq
 deriving Repr, DecidableEq
 
 /-- the p-mer at position `q` (`get_kmer::<P>(q)`); bases are `Nat`s `< 4` -/
-def window (seq : Array Nat) (p q : Nat) : List Nat := (seq.extract q (q + p)).toList
+def window (seq : Array Compress.Base) (p q : Nat) : Compress.Seq := (seq.extract q (q + p)).toList
 
 /-- Narrowing moduli of `start as u32`, `len as u16`, `minimizer_pos as u32`
     (checked against the field types by the constant extractor). -/
@@ -57,7 +58,7 @@ def startMod : Nat := 2 ^ Gen.mspStartBits
 def lenMod : Nat := 2 ^ Gen.mspLenBits
 
 /-- the two loops at msp.rs 248-275 over the forward `min_positions` vector -/
-def mkIntervals (seq : Array Nat) (k p m : Nat) : List (Nat × MinPos) → List Iv
+def mkIntervals (seq : Array Compress.Base) (k p m : Nat) : List (Nat × MinPos) → List Iv
   | [] => []
   | [(s, mn)] => [⟨s % startMod, (m - s) % lenMod, mn.pos % startMod, window seq p mn.pos⟩]
   | (s, mn) :: (s', mn') :: rest =>
@@ -65,7 +66,7 @@ def mkIntervals (seq : Array Nat) (k p m : Nat) : List (Nat × MinPos) → List 
       mkIntervals seq k p m ((s', mn') :: rest)
 
 /-- `Scanner::scan`; `none` = one of the two assertions fails, or `k < p` (usize underflow) -/
-def scan (seq : Array Nat) (score : List Nat → Nat) (k p : Nat) : Option (List Iv) :=
+def scan (seq : Array Compress.Base) (score : Compress.Seq → Nat) (k p : Nat) : Option (List Iv) :=
   let m := seq.size
   if k ≤ m ∧ m < 2 ^ Gen.mspMaxLenLog ∧ p ≤ k then
     let sc := fun q => score (window seq p q)
